@@ -7,27 +7,25 @@ import (
 )
 
 func TestExplore(t *testing.T) {
-	restore := DefaultRegime().Apply()
-	defer restore()
-	inBubble(t, func() {
-		w := NewWorld(nil, simkit.NewTrace())
-		cfg := DefaultNodeConfig("n0")
-		cfg.MinerPreference = 0.5
-		n, err := w.AddNode(cfg)
-		if err != nil {
-			t.Fatal(err)
-		}
-		r := &Runner{W: w, N: n, Head: w.Gen, Stats: map[string]int{}}
-		for _, op := range Prologue(1) {
-			r.Step(op)
-		}
-		for _, op := range []Op{{OpTransfer, 0, 1, 2, 0}, {OpTransfer, 1, 1, 1, 0}, {OpQiSpend, 0, 0, 0, 1}, {OpConvert, 2, 1, 1, 0}, {OpMine, 2, 0, 0, 0}, {OpTransfer, 0, 1, 2, 0}, {OpTransfer, 1, 1, 1, 0}, {OpQiSpend, 3, 1, 0, 2}, {OpMine, 2, 0, 1, 0},{OpTransfer, 0, 1, 2, 0}, {OpTransfer, 1, 1, 1, 0}, {OpQiSpend, 5, 1, 0, 2}} {
-			r.Step(op)
-		}
-		for i, m := range Mutations {
-			out, err := w.Byzantine(n, r.Head, m, i, uint64(i)*1000)
-			t.Logf("%-32s %s applied=%v appended=%v ACCEPTED=%v err=%q trace=%q harnessErr=%v", m.Name, m.Prop, out.Applied, out.Appended, out.Accepted, out.Err, out.TraceNote, err)
-		}
-		n.Stop()
+	res := runChainP(t, simkit.NewTrace(), DefaultNodeConfig("n0"), DefaultRegime(), 1, []Op{{OpMine, 0, 0, 0, 0}, {OpMine, 2, 0, 1, 0}, {OpMine, 0, 0, 2, 0}, {OpMine, 2, 0, 3, 0}}, func(r *Runner) Hooks {
+		return Hooks{End: func(w *World) {
+			pos := map[etxKey]int{}
+			p := 0
+			for _, bi := range w.lineOf(r.Head) {
+				blk := r.N.Zone().GetBlockByHash(bi.Hash)
+				t.Logf("#%d order=%d", bi.Number, bi.Order)
+				for _, tx := range blk.Transactions() {
+					if tx.Type() == 1 {
+						t.Logf("     IN  pos=%d type=%d origin=%x idx=%d val=%v", pos[etxKey{tx.OriginatingTxHash(), tx.ETXIndex()}], tx.EtxType(), tx.OriginatingTxHash().Bytes()[:4], tx.ETXIndex(), tx.Value())
+					}
+				}
+				for _, e := range blk.OutboundEtxs() {
+					pos[etxKey{e.OriginatingTxHash(), e.ETXIndex()}] = p
+					t.Logf("     OUT pos=%d type=%d origin=%x idx=%d val=%v", p, e.EtxType(), e.OriginatingTxHash().Bytes()[:4], e.ETXIndex(), e.Value())
+					p++
+				}
+			}
+		}}
 	})
+	_ = res
 }
